@@ -33,20 +33,22 @@ type envT struct {
 	Strat    string            `json:"strat"`
 	MS       map[string]string `json:"ms"`
 	Paths    [][2]string       `json:"paths"`
-	Blocks   []json.RawMessage `json:"blocks"` // [cdag, [links]]: the truth about the cluster-DAG
-	Fail     []string          `json:"fail"`   // CIDs whose BlockGet fails at the moment
+	Blocks   []json.RawMessage `json:"blocks"`  // [cdag, [links]]: the truth about the cluster-DAG
+	Fail     []string          `json:"fail"`    // CIDs whose BlockGet fails at the moment
+	LogFail  [][2]string       `json:"logfail"` // <<kind, cid>> consensus operations failing at the moment
 }
 
 type callT struct {
-	Op   string            `json:"op"`
-	Cid  string            `json:"cid,omitempty"`
-	O    *rig.AbsOpts      `json:"o,omitempty"`
-	P    *rig.Entry        `json:"p,omitempty"`
-	From string            `json:"from,omitempty"`
-	To   string            `json:"to,omitempty"`
-	Path string            `json:"path,omitempty"`
-	MS   map[string]string `json:"ms,omitempty"`
-	Fail []string          `json:"fail,omitempty"`
+	Op      string            `json:"op"`
+	Cid     string            `json:"cid,omitempty"`
+	O       *rig.AbsOpts      `json:"o,omitempty"`
+	P       *rig.Entry        `json:"p,omitempty"`
+	From    string            `json:"from,omitempty"`
+	To      string            `json:"to,omitempty"`
+	Path    string            `json:"path,omitempty"`
+	MS      map[string]string `json:"ms,omitempty"`
+	Fail    []string          `json:"fail,omitempty"`
+	LogFail [][2]string       `json:"logfail,omitempty"`
 }
 
 type scriptT struct {
@@ -58,10 +60,11 @@ type scriptT struct {
 }
 
 type obsT struct {
-	OK  bool        `json:"ok"`
-	Ps2 []rig.Entry `json:"ps2"`
-	Ret []rig.Entry `json:"ret"`
-	Log [][2]string `json:"log"`
+	OK     bool        `json:"ok"`
+	Ps2    []rig.Entry `json:"ps2"`
+	Ret    []rig.Entry `json:"ret"`
+	Log    [][2]string `json:"log"`
+	Failed [][2]string `json:"failed"` // consensus operations that were attempted and failed
 }
 
 type recT struct {
@@ -132,6 +135,15 @@ func (w *world) setMetrics(ms map[string]string) {
 	w.r.Mon.Set(name, out)
 }
 
+// setLogFail injects consensus failures for the named operations.
+func (w *world) setLogFail(lf [][2]string) {
+	var fs []rig.LogFault
+	for _, f := range lf {
+		fs = append(fs, rig.LogFault{Kind: f[0], Cid: w.proj.N.Cid(f[1])})
+	}
+	w.r.Shared.FailOps(fs, 0)
+}
+
 // prepare loads environment and initial pinset of a script.
 func (w *world) prepare(s *scriptT) error {
 	ctx := context.Background()
@@ -143,6 +155,7 @@ func (w *world) prepare(s *scriptT) error {
 		}
 	}
 	w.r.Shared.SetPeers(members)
+	w.r.Shared.FailOps(nil, 0)
 	w.r.Shared.Reset()
 	w.r.IPFS.Paths = map[string]cid.Cid{}
 	for _, pc := range s.Env.Paths {
@@ -180,6 +193,7 @@ func (w *world) prepare(s *scriptT) error {
 		}
 	}
 	w.setMetrics(s.Env.MS)
+	w.setLogFail(s.Env.LogFail)
 	w.r.Shared.TakeCalls()
 	return nil
 }
@@ -276,8 +290,19 @@ func TestDriver(t *testing.T) {
 		if env.Fail == nil {
 			env.Fail = []string{}
 		}
+		if env.LogFail == nil {
+			env.LogFail = [][2]string{}
+		}
 		for i := range s.Steps {
 			c := &s.Steps[i]
+			if c.Op == "logfail" {
+				env.LogFail = c.LogFail
+				if env.LogFail == nil {
+					env.LogFail = [][2]string{}
+				}
+				w.setLogFail(c.LogFail)
+				continue
+			}
 			if c.Op == "blockfail" {
 				env.Fail = c.Fail
 				if env.Fail == nil {
@@ -303,13 +328,17 @@ func TestDriver(t *testing.T) {
 				return
 			}
 			rec := recT{ID: s.ID, Step: i + 1, Src: s.Src, Env: env, Ps: before, Call: *c,
-				Obs: obsT{OK: cerr == nil, Ps2: after, Ret: []rig.Entry{}, Log: [][2]string{}}}
+				Obs: obsT{OK: cerr == nil, Ps2: after, Ret: []rig.Entry{}, Log: [][2]string{}, Failed: [][2]string{}}}
 			if cerr != nil {
 				rec.Err = cerr.Error()
 			} else if pin != nil {
 				rec.Obs.Ret = append(rec.Obs.Ret, w.proj.Entry(pin))
 			}
 			for _, lc := range w.r.Shared.TakeCalls() {
+				if lc.Err != nil {
+					rec.Obs.Failed = append(rec.Obs.Failed, [2]string{lc.Kind, w.proj.N.CidName(lc.Pin.Cid)})
+					continue
+				}
 				rec.Obs.Log = append(rec.Obs.Log, [2]string{lc.Kind, w.proj.N.CidName(lc.Pin.Cid)})
 			}
 			if err := enc.Encode(&rec); err != nil {
